@@ -381,6 +381,47 @@ let check_envelope p d0 g =
        | t0 :: _ -> (&&) (Z.leb Z0 t0) (Z.leb t0 p.init_ms)))
     (envelope_gaps_ok true (gaps s) p)
 
+type kind =
+| KHello
+| KBye
+| KProbe
+| KResolve
+| KProbeMatches
+| KResolveMatches
+
+type pset =
+| PUnicast
+| PMulticast
+| POther of params
+
+(** val is_multicast_kind : kind -> bool **)
+
+let is_multicast_kind = function
+| KProbeMatches -> false
+| KResolveMatches -> false
+| _ -> true
+
+(** val spec_pset : kind -> pset **)
+
+let spec_pset k =
+  if is_multicast_kind k then PMulticast else PUnicast
+
+(** val pset_params : params -> params -> pset -> params **)
+
+let pset_params u m = function
+| PUnicast -> u
+| PMulticast -> m
+| POther p -> p
+
+type api_op =
+| OpPublish
+| OpClearService
+| OpClearLocal
+| OpClearRemote
+| OpSearch
+| OpFound
+| OpStop
+
 type known = z list
 
 (** val remember : nat -> known -> z -> known **)
@@ -396,12 +437,16 @@ let is_known k id =
 type ev =
 | EvOut of z
 | EvIn of z
+| EvOp of api_op
+| EvRestart
 
 (** val dstep : nat -> known -> ev -> known * bool **)
 
 let dstep cap k = function
 | EvOut id -> ((remember cap k id), false)
 | EvIn id -> if is_known k id then (k, false) else ((remember cap k id), true)
+| EvOp _ -> (k, false)
+| EvRestart -> ([], false)
 
 (** val drun : nat -> known -> ev list -> known * bool list **)
 
@@ -410,3 +455,47 @@ let rec drun cap k = function
 | e :: r ->
   let (k1, b) = dstep cap k e in
   let (k2, bs) = drun cap k1 r in (k2, (b :: bs))
+
+(** val unicast_params : params **)
+
+let unicast_params =
+  { init_ms = (Zpos (XO (XO (XI (XO (XI (XI (XI (XI XH))))))))); repeat = (S
+    (S O)); min_ms = (Zpos (XO (XI (XO (XO (XI XH)))))); max_ms = (Zpos (XO
+    (XI (XO (XI (XI (XI (XI XH)))))))); upper_ms = (Zpos (XO (XO (XI (XO (XI
+    (XI (XI (XI XH))))))))) }
+
+(** val multicast_params : params **)
+
+let multicast_params =
+  { init_ms = (Zpos (XO (XO (XI (XO (XI (XI (XI (XI XH))))))))); repeat = (S
+    (S (S (S O)))); min_ms = (Zpos (XO (XI (XO (XO (XI XH)))))); max_ms =
+    (Zpos (XO (XI (XO (XI (XI (XI (XI XH)))))))); upper_ms = (Zpos (XO (XO
+    (XI (XO (XI (XI (XI (XI XH))))))))) }
+
+(** val impl_kind_pset : kind -> pset **)
+
+let impl_kind_pset = function
+| KProbeMatches -> PUnicast
+| KResolveMatches -> PUnicast
+| _ -> PMulticast
+
+(** val kind_params : kind -> params **)
+
+let kind_params k =
+  pset_params unicast_params multicast_params (impl_kind_pset k)
+
+(** val spec_params : kind -> params **)
+
+let spec_params k =
+  pset_params unicast_params multicast_params (spec_pset k)
+
+(** val kind_schedule_us : kind -> z -> z -> (z * z) list **)
+
+let kind_schedule_us k d0 g =
+  schedule_us (kind_params k) d0 g
+
+(** val kind_count_ok : kind -> bool **)
+
+let kind_count_ok k =
+  Nat.eqb (length (schedule_ms (kind_params k) Z0 (kind_params k).min_ms)) (S
+    (spec_params k).repeat)
